@@ -72,6 +72,9 @@ def check_obligations(prop, tier="quick"):
     Returns dict(ok, obligations, discharged, theorems, axioms, detail).
     """
     src = os.path.join(COQ, "Props", prop + ".v")
+    if not os.path.exists(src):
+        return dict(ok=False, obligations=1, discharged=0, theorems=[], axioms=[],
+                    detail="Props/%s.v does not exist" % prop)
     with open(src) as fh:
         text = fh.read()
     theorems = re.findall(r"^\s*(?:Theorem|Example|Lemma)\s+(\w+)", text, re.M)
@@ -234,9 +237,16 @@ class Case:
         return "\n".join(self.lines)
 
     def to_json(self):
+        def plain(v):
+            if isinstance(v, (str, int, float, bool, type(None))):
+                return v
+            if isinstance(v, (list, tuple)):
+                return [plain(x) for x in v]
+            if isinstance(v, dict):
+                return {str(k): plain(x) for k, x in v.items()}
+            return str(v)
         return dict(lines=self.lines, tags=list(self.tags),
-                    meta={k: v for k, v in self.meta.items()
-                          if isinstance(v, (str, int, float, list, bool, type(None)))},
+                    meta={k: plain(v) for k, v in self.meta.items()},
                     impl=self.impl, model_queries=self.mq, model=self.model)
 
 
